@@ -92,7 +92,7 @@ def _insert_loop_specs(fn_text, loops, log, where):
 
 def _apply_inserts(body, inserts, where, log=None):
     """Ghost code keyed by a code-text anchor: (anchor_regex, ghost_text[, occurrence]) -- the ghost text
-    is inserted right after the anchor (which must end a statement).  A LOST anchor does not stop the run:
+    is inserted right after the anchor (which must end a statement), or right before it when a 4th element "before" is given.  A LOST anchor does not stop the run:
     the hint is skipped, the loss is recorded (rule A0) and the function is verified without it; if it then
     fails, the failure only counts as a violation when a failing input is found (see check: anchor policy)."""
     for ins in inserts or []:
@@ -114,7 +114,10 @@ def _apply_inserts(body, inserts, where, log=None):
                 raise Unsupported("%s: ghost-insert anchor /%s/ occurrence %d not found -- anchor lost"
                                   % (where, pat, which))
             m = ms[which]
-        body = body[:m.end()] + "\n" + ghost + "\n" + body[m.end():]
+        if len(ins) > 3 and ins[3] == "before":
+            body = body[:m.start()] + ghost + "\n" + body[m.start():]
+        else:
+            body = body[:m.end()] + "\n" + ghost + "\n" + body[m.end():]
     return body
 
 
@@ -205,8 +208,13 @@ def _instantiate_macro(src, it, log, where):
     if "=>" in mb[t_close:] and re.search(r"\(", mb[t_close:]):
         # further arms exist: only accept if the invocation matches the first arm's arity (checked below)
         pass
-    params = re.findall(r"\$(\w+)\s*:\s*\w+", pattern)
-    if "$(" in pattern:
+    # optional groups `$( ... )?` (one level): their parameters may be absent from the invocation
+    optional = []
+    for om in re.finditer(r"\$\((.*?)\)\?", pattern, flags=re.S):
+        optional += re.findall(r"\$(\w+)\s*:\s*\w+", om.group(1))
+    flat_pattern = re.sub(r"\$\((.*?)\)\?", r"\1", pattern, flags=re.S)
+    params = re.findall(r"\$(\w+)\s*:\s*\w+", flat_pattern)
+    if "$(" in flat_pattern:
         raise Unsupported("rule M1: macro %s has a repetition in its pattern" % it["macro"])
     # the real invocation whose first argument is the wanted name
     inv = None
@@ -217,10 +225,18 @@ def _instantiate_macro(src, it, log, where):
             break
     if inv is None:
         raise Unsupported("anchor lost: invocation %s!(%s, ..)" % (it["macro"], it["name"]))
-    if len(inv) != len(params):
-        raise Unsupported("rule M1: %s!(%s) has %d arguments, the template %d parameters" % (it["macro"], it["name"], len(inv), len(params)))
+    required = [q for q in params if q not in optional]
+    if not (len(required) <= len(inv) <= len(params)) or params[:len(required)] != required:
+        raise Unsupported("rule M1: %s!(%s) has %d arguments, the template %d parameters (%d optional)"
+                          % (it["macro"], it["name"], len(inv), len(params), len(optional)))
+    present = params[:len(inv)]
     text = template
-    for pname, arg in sorted(zip(params, inv), key=lambda z: -len(z[0])):
+
+    def _group(gm):
+        names = re.findall(r"\$(\w+)\b", gm.group(1))
+        return gm.group(1) if names and all(n in present for n in names) else ""
+    text = re.sub(r"\$\(((?:[^()]|\([^()]*\))*?)\)\?", _group, text, flags=re.S)
+    for pname, arg in sorted(zip(present, inv), key=lambda z: -len(z[0])):
         text = re.sub(r"\$%s\b" % re.escape(pname), arg, text)
     if "$" in rsitems.mask(text):
         raise Unsupported("rule M1: unsubstituted macro variable in %s!(%s)" % (it["macro"], it["name"]))
